@@ -151,6 +151,44 @@ func decodeShape(w *W, k lib.Kind, s string, nilRecv bool, recv lib.Obj, reuse b
 	return o, err
 }
 
+// decodeShapeMode is decodeShape for the further receiver modes (embedded, re-plugged, preset, nil after a
+// rejected nil decode, scribbled), and judges "usable object" on an accepted vector: it reports no error and
+// encodes.
+func decodeShapeMode(w *W, k lib.Kind, s string, mode int) {
+	w.Eval(1)
+	o, recv, err, pan := lib.DecodeMode(k, s, mode)
+	c := decodeCaseMode(k, s, mode)
+	if pan != nil {
+		w.Violate(Violation{Monitor: "C12", Check: "Decode does not panic", Case: c, Observed: pan.Value, Note: clip(pan.Stack, 1500)})
+		return
+	}
+	if err == nil && o.IsNil() {
+		w.Violate(Violation{Monitor: "C12", Check: "Decode returns an object or an error, never neither", Case: c, Observed: "(nil, nil)"})
+		return
+	}
+	if err != nil && !o.IsNil() {
+		w.Violate(Violation{Monitor: "C12", Check: "Decode returns an object or an error, never both", Case: c, Observed: "(object, " + lib.ErrClass(err) + ")"})
+	}
+	if err != nil {
+		if !recv.IsNil() && Hash(s)%4 == 1 {
+			x := recv.Observe()
+			if x.Pan != nil {
+				w.Violate(Violation{Monitor: "C12", Check: "queries on the decoder object left behind by a failed decode do not panic", Case: c, Observed: x.PanOp + ": " + x.Pan.Value, Note: clip(x.Pan.Stack, 1500)})
+			}
+		}
+		return
+	}
+	x := o.Observe()
+	switch {
+	case x.Pan != nil:
+		w.Violate(Violation{Monitor: "C12", Check: "queries on a decoded object do not panic", Case: c, Observed: x.PanOp + ": " + x.Pan.Value, Note: clip(x.Pan.Stack, 1500)})
+	case x.Err != nil || x.EncErr != nil:
+		w.Violate(Violation{Monitor: "C12", Check: "an object returned without error is usable (reports no error, encodes)", Case: c,
+			Observed: fmt.Sprintf("GetError=%s Encode error=%s", lib.ErrClass(x.Err), lib.ErrClass(x.EncErr))})
+	}
+	w.Count("decodes_through_receiver_mode:" + lib.ModeNames[mode])
+}
+
 var hostileShort = []string{"", ":", "/", "::", "//", ":/", "/:", "CVSS:", "CVSS:/", "CVSS:3.1", "CVSS:3.1/", "CVSS:3.1//", "CVSS:3.1/:", "CVSS:3.1/:/", "CVSS:3.1/AV", "CVSS:3.1/AV:",
 	"\x00", "CVSS:3.1/\x00", "CVSS:3.1/AV:\x00", "\xff\xfe", "CVSS:3.1/AV:\xff", "CVSS:3.1/\xc3\x28:N", "AV:", "AV", ":N", "AV:N", "AV:N/", "AV:N/AC:L/Au:N/C:P/I:P/A:P/",
 	"AV:N/AC:L/Au:N/C:P/I:P/A:P/E", "AV:N/AC:L/Au:N/C:P/I:P/A:P/E:", "AV:N/AC:L/Au:N/C:P/I:P/A:P/CDP:", " ", "\n", "\t", "CVSS:3.1/AV:N/AC:L/PR:N/UI:N/S:U/C:H/I:H/A:H/\x00",
@@ -190,6 +228,8 @@ func runC12(r *Run) int {
 					}
 				}
 			}
+			// one more decoder per string through a further receiver mode
+			decodeShapeMode(w, kindOf(v2, int(h>>29)%3), s, lib.RecvEmbedded+int(h>>33)%5)
 			if h%400009 == 0 {
 				w.Sample(map[string]interface{}{"string": clip(s, 120), "generator": m.Src})
 			}
@@ -455,6 +495,10 @@ func replayC12(r *Run, c Case) {
 		return
 	}
 	s := c.GetInput()
+	if m := caseMode(c); m >= lib.RecvEmbedded {
+		decodeShapeMode(w, k, s, m)
+		return
+	}
 	recv := lib.New(k)
 	o, err := decodeShape(w, k, s, c.NilRcv, recv, false)
 	fmt.Printf("replay %s %q: object nil=%v err=%s\n", c.Kind, clip(s, 200), o.IsNil(), lib.ErrClass(err))
